@@ -26,6 +26,7 @@ except ImportError:
 from functools import wraps
 import warnings
 from math import isinf
+from sys import maxsize
 
 # Audiolazy internal imports
 from .lazy_misc import blocks, rint
@@ -289,7 +290,8 @@ class Stream(meta(Iterable, metaclass=StreamMeta)):
       return constructor(self._data)
     if isinstance(n, float):
       n = rint(n) if n > 0 else 0 # So this works with -inf and nan
-    return constructor(it.islice(self._data, max(n, 0)))
+    # islice refuses counts above sys.maxsize; no stream has that many items
+    return constructor(it.islice(self._data, min(max(n, 0), maxsize)))
 
   def copy(self):
     """
@@ -333,14 +335,15 @@ class Stream(meta(Iterable, metaclass=StreamMeta)):
     """
     # No generator here: each one is an interpreter frame when an item is
     # pulled, so many stacked skips would exhaust the recursion limit
-    self._data = it.islice(self._data, max(int(round(n)), 0), None)
+    self._data = it.islice(self._data, min(max(int(round(n)), 0), maxsize),
+                           None)
     return self
 
   def limit(self, n):
     """
     Enforces the Stream to finish after ``n`` items.
     """
-    self._data = it.islice(self._data, max(int(round(n)), 0))
+    self._data = it.islice(self._data, min(max(int(round(n)), 0), maxsize))
     return self
 
   def __getattr__(self, name):
